@@ -2,14 +2,14 @@ HOOKS = {
     'guard': 'cargo feature `verif-hooks` of crate lightmotif (off by default)',
     'enable': 'harness crates under /verif depend on lightmotif with features = ["verif-hooks"]; Verus units need no hook (extraction reads the files as they are)',
     'baseline_off_cmd': 'cd /repo && cargo test --workspace --no-fail-fast --offline',
-    'source_commits': [],
+    'source_commits': ['6984f07'],
     'add_only': True,
 }
 NOTES = 'Exit codes of ./check: 0 all obligations discharged; 1 VIOLATION (definite verifier refutation not recorded as a known finding); 2 undecided (lost anchor, changed signature, unsupported construct, rlimit, tool crash) - never an alarm. See DESIGN.md.'
 
 PENDING = 'check not built yet in this session (planned in DESIGN.md section 5)'
 NOT_APPLICABLE = {
-    'C06': PENDING, 
+    
     
     'C11': 'numerical accuracy of a 1000-bin f32 convolution against an exact enumeration over K^M words: floats are uninterpreted in Verus and the convolution is out of reach of CBMC; no contract within reach expresses or decides it (DESIGN.md 5/C11)',
     'C12': 'HashMap<i64,f64> dynamic programming bounded by exact tail probabilities of the true score distribution: a protocol-level real-number argument (TFM-PVALUE paper), not expressible over the real code with Verus (opaque floats, no HashMap iteration specs) or Kani (unbounded loops over float maps) (DESIGN.md 5/C12)',
@@ -18,6 +18,12 @@ NOT_APPLICABLE = {
 }
 
 CHECKS = {
+    'C06': {
+        'text': 'Two parts. Safe code (unbounded): every function under contract for C01-C05, C07-C10, C16, C19 is proved by Verus to perform no out-of-bounds index, division by zero, integer overflow or unwrap of None for all inputs satisfying its (weakest, code-derived) precondition, and callers are proved to establish those preconditions - this is where the scanner defects D1/D2 surfaced. Unsafe code (BOUNDED, never counted as discharged): Kani harnesses run the real AVX2/SSE2 encoders, AVX2 u8 max/argmax, AVX2 u8 scoring, AVX2 f32 scoring (M = 1), AVX2 striping (one block) and the unsafe DenseMatrix API with pointer-safety checks and alignment assertions inside the models of aligned loads/stores; this is where the out-of-bounds block load of stripe_avx2 (D4) was found. Sequences of calls on unsafe kernels, the SSE2 scoring/argmax kernels, the f32 max/argmax kernels, the protein gather kernel and NEON are not covered.',
+        'design_ref': 'DESIGN.md section 5, C06; section 11',
+        'note': 'Trusted: Verus/Z3, Kani/CBMC, intrinsic models (A-X1), GenericArray ~ [T;N]. The bounded part explores single calls on small inputs only.',
+        'technique': 'contract-based deductive verification (Verus panic-freedom obligations on real bodies) + bounded Kani pointer-safety harnesses on the real unsafe kernels',
+    },
     'C16': {
         'text': 'Unbounded deductive proof (Verus) on the verbatim bodies of BitVec::{test,set,unset,count,len}, Sampler::{exclude_sequence, include_sequence} and Iterator::next for Sampler: the representation invariant "motif count matrix = counts of the width-long windows at the starts of the active sequences; background counts = symbol counts of those sequences outside their windows; every start leaves the window inside its sequence; active.count is the number of active sequences" is preserved by every update from an arbitrary state satisfying it (hence at every step of every run, by induction), including all u32/usize underflow/overflow obligations (which depend on the order of the two background loops); next() reports the counts of the alignment without the held-out sequence. Random draws and the float scoring step enter through assumed contracts.',
         'design_ref': 'DESIGN.md section 5, C16',
